@@ -502,3 +502,49 @@ Section DeliverProofs.
       intros X. apply app_inv_head in X. contradiction.
   Qed.
 End DeliverProofs.
+
+(* ------------------------------------------------------------------ *)
+(* CheckTx never changes the delivery state                            *)
+(* ------------------------------------------------------------------ *)
+Section MempoolProofs.
+  Context {L Raw : Type}.
+  Variable C : cfg L Raw.
+  Variable check_exec_ok : L -> bytes -> tx -> bool.
+
+  Lemma checktx_erasure (m : @mstate L) (ops : list (@mop L Raw)) :
+    ds (mrun C check_exec_ok m ops) = run C (ds m) (deliver_ops ops).
+  Proof.
+    revert m; induction ops as [|o r IH]; intros m; [reflexivity|].
+    cbn [mrun fold_left]. fold (mrun C check_exec_ok (mstep C check_exec_ok m o) r).
+    rewrite IH. destruct o as [o'|raw|]; cbn [mstep ds deliver_ops run fold_left]; reflexivity.
+  Qed.
+
+  (* in particular the nonces the delivery path sees, and the trace of
+     authenticated transactions, do not depend on interleaved CheckTx calls *)
+  Lemma checktx_keeps_delivery_nonces (m : @mstate L) (raw : Raw) a :
+    nonce_of (ds (mstep C check_exec_ok m (MCheck raw))) a = nonce_of (ds m) a.
+  Proof. reflexivity. Qed.
+
+  (* what CheckTx does to ITS state: at most the signer's nonce, by one *)
+  Lemma checktx_own_state (s : state L) raw :
+    snd (check_tx C check_exec_ok s raw) = false /\ fst (check_tx C check_exec_ok s raw) = s
+    \/ exists e t, dec_env C raw = Some e /\ verify C e = true /\ dec_tx C (e_blob e) = Some t /\
+         (is_critical C (t_method t) = false -> t_nonce t = nonce_of s (addr_of C (e_pk e))) /\
+         nonces (fst (check_tx C check_exec_ok s raw))
+           = aset (addr_of C (e_pk e)) ((nonce_of s (addr_of C (e_pk e)) + 1) mod U64) (nonces s).
+  Proof.
+    unfold check_tx. destruct (decode C raw) as [r|e t] eqn:Hd; [left; split; reflexivity|].
+    cbv zeta.
+    match goal with |- context [if negb ?b then _ else _] => destruct b eqn:Hpre end; cbn [negb];
+      [|left; split; reflexivity].
+    destruct (gas_size_ok C (rest s) raw t); cbn [negb]; [|left; split; reflexivity].
+    destruct (gas_price_ok C t); cbn [negb]; [|left; split; reflexivity].
+    destruct (check_exec_ok (rest s) (e_pk e) t); cbn [negb]; [|left; split; reflexivity].
+    destruct (fee_move_ok C (rest s) (addr_of C (e_pk e)) (fee_of t)); cbn [negb]; [|left; split; reflexivity].
+    right. exists e, t. apply decode_DTx in Hd. destruct Hd as [H1 [H2 H3]].
+    repeat split; try assumption.
+    intros Hc. rewrite Hc in Hpre.
+    apply andb_true_iff in Hpre as [Hpre _]. apply andb_true_iff in Hpre as [_ Hn].
+    apply N.eqb_eq in Hn. symmetry. exact Hn.
+  Qed.
+End MempoolProofs.
